@@ -124,7 +124,12 @@ def run(ctx):
     panics = 0
     samples = []
     hbatches = collections.Counter()
+    reason_stats = collections.Counter()
     for l, v in zip(lines, verdicts):
+        # statistic only (C07 does not prescribe the REASON of an Accepted=False condition): never a finding
+        v, _, rs = v.partition(" ## ")
+        for tag in filter(None, rs.split(";")):
+            reason_stats[tag.partition("@")[0]] += 1
         d = json.loads(l)
         if d.get("h"):
             b = d["h"]["batches"][-1]
@@ -189,6 +194,10 @@ def run(ctx):
         "panics": panics,
         "generator_tags": dict(tags),
         "handler_batches": dict(hbatches),
+        "reason_disagreements": dict(reason_stats),
+        "reason_disagreements_note": "statistic, not a verdict: Accepted=False reasons (NoMatchingParent / NotAllowedByListeners / "
+                                     "NoMatchingListenerHostname) that differ from the Gateway API reading of the objects; the property "
+                                     "does not prescribe reasons, they are compared in the model<->implementation correspondence only",
         "fragment_stream": {
             "what": "in-fragment scenarios (C02's fragment generator + several parentRefs incl. ignored/foreign/missing Gateways and "
                     "non-Gateway kinds, section-name misses, namespace-not-allowed, hostname misses, all-rules-invalid routes, "
